@@ -22,23 +22,25 @@ theorem cached_load_sound {ID : Type} [DecidableEq ID] (hash : Bytes → ID) (id
     (h : (loadRaw hash id k false adv s).2 = .ok b) : hash b = id := by
   unfold loadRaw at h
   simp only [Bool.not_false, Bool.true_and, decide_eq_true_eq] at h
-  split at h
-  · -- first read did not match: forget + second read
-    split at h
-    · rename_i b2 _
-      split at h
-      · cases h
-      · rename_i hh
-        simp only [ne_eq, Decidable.not_not] at hh
-        cases h; exact hh
-    · rename_i hne
-      -- the second result is passed through only when it is not `ok`
-      rw [h] at hne
-      exact absurd rfl (hne b)
-  · rename_i hh
-    simp only [ne_eq, Decidable.not_not] at hh
-    rw [h] at hh
-    exact hh
+  generalize cbLoad k 0 0 adv.a1 adv.a2 s adv.f1 = t1 at h
+  generalize cbLoad k 0 0 adv.a3 adv.a4 (forget k t1.1) adv.f2 = t2 at h
+  obtain ⟨s1, r1⟩ := t1
+  obtain ⟨s2, r2⟩ := t2
+  by_cases h1 : hash (bufOf r1) = id
+  · -- first read matched: passed through unless it carried an error
+    simp only [h1, ne_eq, not_true_eq_false, if_false] at h
+    cases r1 with
+    | ok b1 => simp at h; rw [← h]; exact h1
+    | err e => simp at h
+    | errWithData e b1 => simp at h
+  · simp only [h1, ne_eq, not_false_eq_true, if_true] at h
+    cases r2 with
+    | ok b2 =>
+      by_cases h2 : hash b2 = id
+      · simp [h2] at h; rw [← h]; exact h2
+      · simp [h2] at h
+    | err e => simp at h
+    | errWithData e b2 => simp at h
 
 /-- ... hence equal to the repository's bytes, unless the hash function collides on them -/
 theorem cached_load_same_as_repo {ID : Type} [DecidableEq ID] (hash : Bytes → ID) (id : ID) (k : Kind)
@@ -55,8 +57,8 @@ theorem cached_blob_sound (verify : Bytes → Bool) (k : Kind) (length offset : 
     (h : (loadBlob1 verify k length offset adv s).2 = .ok b) : verify b = true := by
   unfold loadBlob1 at h
   simp only at h
-  generalize cbLoad k length offset adv.a1 adv.a2 s = t1 at h
-  generalize cbLoad k length offset adv.a3 adv.a4 (forget k t1.1) = t2 at h
+  generalize cbLoad k length offset adv.a1 adv.a2 s adv.f1 = t1 at h
+  generalize cbLoad k length offset adv.a3 adv.a4 (forget k t1.1) adv.f2 = t2 at h
   obtain ⟨s1, r1⟩ := t1
   obtain ⟨s2, r2⟩ := t2
   cases r1 with
@@ -162,23 +164,23 @@ theorem healthy_hit {ID : Type} [DecidableEq ID] (hash : Bytes → ID) (id : ID)
 
 /-- kinds that are never cached ignore the cache completely -/
 theorem not_cacheable_ignores_cache {ID : Type} [DecidableEq ID] (hash : Bytes → ID) (id : ID)
-    (d : Bytes) (cell : Option Bytes) (f : Bool) (hd : hash d = id) (adv : Advs) :
+    (d : Bytes) (cell : Option Bytes) (f : Bool) (hd : hash d = id) (adv : Advs) (hf : adv.f1.be = .none) :
     loadRaw hash id .notCacheable false adv { be := some d, cell := cell, forgotten := f }
       = ({ be := some d, cell := cell, forgotten := f }, .ok d) := by
-  simp [loadRaw, cbLoad, beLoad, slice, bufOf, hd]
+  simp [loadRaw, cbLoad, beLoad, slice, bufOf, hd, hf]
 
 /-- `loadRaw` never changes the repository -/
 theorem loadRaw_be_unchanged {ID : Type} [DecidableEq ID] (hash : Bytes → ID) (id : ID) (k : Kind) (cfg : Bool)
     (adv : Advs) (s : S) : (loadRaw hash id k cfg adv s).1.be = s.be := by
-  have hcb : ∀ (a1 a2 : Adv) (s : S), (cbLoad k 0 0 a1 a2 s).1.be = s.be := by
-    intro a1 a2 s
+  have hcb : ∀ (a1 a2 : Adv) (s : S) (f : Faults), (cbLoad k 0 0 a1 a2 s f).1.be = s.be := by
+    intro a1 a2 s f
     unfold cbLoad
     simp only
     split
     · rfl
     · split
       · rfl
-      · cases a1 <;> cases a2 <;> cases hc : s.cell <;> cases hb : s.be <;>
+      · cases a1 <;> cases a2 <;> cases hc : s.cell <;> cases hb : s.be <;> cases hdl : f.dl <;>
           simp [applyAdv, hc, hb] <;> (repeat' split) <;> simp_all
   have hf : ∀ s : S, (forget k s).be = s.be := by
     intro s; unfold forget; split
@@ -188,7 +190,73 @@ theorem loadRaw_be_unchanged {ID : Type} [DecidableEq ID] (hash : Bytes → ID) 
   simp only
   split
   · split <;> (try split) <;> simp only [hcb, hf]
-  · exact hcb _ _ _
+  · split <;> simp only [hcb]
+
+/-! ## the cache by itself never stores or serves wrong bytes (cacheBackend.Load level) -/
+
+theorem cellOK_iff (s : S) : cellOK s = true ↔ (s.cell = none ∨ s.cell = s.be) := by
+  unfold cellOK; simp
+
+/-- **cb_load_sound.** One `cacheBackend.Load` (any kind, any range) with nobody else writing to
+    the cache directory, under *every* fault of the wrapped backend — failure before the body,
+    or a body cut short with a clean EOF whose error is reported only after the consumer
+    (`Cache.save`) returned nil: if the cell was absent or equal to the repository's file before,
+    it is so afterwards, and a result without error is exactly the requested range of the
+    repository's file. -/
+theorem cb_load_sound (k : Kind) (length offset : Nat) (s : S) (f : Faults) (h : cellOK s = true) :
+    cellOK (cbLoad k length offset none none s f).1 = true ∧
+    (cbLoad k length offset none none s f).1.be = s.be ∧
+    ∀ b, (cbLoad k length offset none none s f).2 = .ok b → ∃ d, s.be = some d ∧ b = slice d length offset := by
+  obtain ⟨be, cell, fg⟩ := s
+  obtain ⟨fdl, fbe⟩ := f
+  rw [cellOK_iff] at h
+  simp only at h
+  rcases h with h | h
+  · subst h
+    cases k <;> cases be <;> cases fdl <;> cases fbe <;>
+      simp [cbLoad, beLoad, readCell, applyAdv, cellOK] <;> (repeat' split) <;> simp_all
+  · subst h
+    cases k <;> cases cell <;> cases fdl <;> cases fbe <;>
+      simp [cbLoad, beLoad, readCell, applyAdv, cellOK] <;> (repeat' split) <;> simp_all
+
+/-- a whole history of loads on the handle keeps the invariant (induction over the history) -/
+def cbRun (k : Kind) : S → List (Nat × Nat × Faults) → S
+  | s, [] => s
+  | s, (l, o, f) :: rest => cbRun k (cbLoad k l o none none s f).1 rest
+
+theorem cb_history_sound (k : Kind) (hist : List (Nat × Nat × Faults)) :
+    ∀ s : S, cellOK s = true → cellOK (cbRun k s hist) = true ∧ (cbRun k s hist).be = s.be := by
+  induction hist with
+  | nil => intro s h; exact ⟨h, rfl⟩
+  | cons x xs ih =>
+    intro s h
+    obtain ⟨l, o, f⟩ := x
+    obtain ⟨h1, h2, _⟩ := cb_load_sound k l o s f h
+    obtain ⟨h3, h4⟩ := ih _ h1
+    exact ⟨h3, by rw [← h2]; exact h4⟩
+
+/-- the model meets the executable cacheBackend-level statement -/
+theorem cb_specOK (k : Kind) (length offset : Nat) (s : S) (f : Faults) :
+    cbSpecViolation length offset s (cbLoad k length offset none none s f).2
+      (cbLoad k length offset none none s f).1.cell = none := by
+  unfold cbSpecViolation
+  split
+  · rfl
+  · rename_i hok
+    have hok' : cellOK s = true := by simpa using hok
+    obtain ⟨h1, h2, h3⟩ := cb_load_sound k length offset s f hok'
+    rw [cellOK_iff] at h1
+    rw [h2] at h1
+    have hc2 : ((cbLoad k length offset none none s f).1.cell == none ||
+        (cbLoad k length offset none none s f).1.cell == s.be) = true := by
+      rcases h1 with h1 | h1 <;> simp [h1]
+    simp only [hc2, if_true]
+    cases hr : (cbLoad k length offset none none s f).2 with
+    | ok b =>
+      obtain ⟨d, hd, hb⟩ := h3 b hr
+      simp [hd, hb]
+    | err e => rfl
+    | errWithData e b => rfl
 
 /-! ## the transcription meets the executable statement -/
 
@@ -234,6 +302,11 @@ example : (loadRaw toyHash 7 .autoCached false { a2 := some (some [3]) } { be :=
 /-- second corruption in the same run: error with the data, not ok -/
 example : (loadRaw toyHash 7 .autoCached false noAdv { be := some [7, 1], cell := some [3], forgotten := true }).2
     = .errWithData .invalidData [3] := by decide
+
+/-- a download whose error arrives after the consumer stored a truncated body: the entry is
+    removed again, the load fails, and the next load returns the repository's bytes -/
+example : cbLoad .autoCached 0 0 none none { be := some [7, 1, 2], cell := none, forgotten := false } { dl := .late 1 }
+    = ({ be := some [7, 1, 2], cell := none, forgotten := false }, .err .backendFail) := by decide
 
 /-- LoadBlob range read from a truncated cached pack: "too short", forget, re-download, verified -/
 example : (loadBlob1 (fun b => b == [5, 6]) .autoCached 2 1 noAdv { be := some [4, 5, 6], cell := some [4, 5], forgotten := false })
